@@ -6,9 +6,13 @@
 //   c3 x y z depth i | c2 x z depth i     World::composition
 //   size a,b,c [...]                      World::properties_output_size
 //   dist x y z depth name                 World::distance_to_plane
+//   gc r lon1 lat1 lon2 lat2 (radians)    coordinate system: distance_between_points_at_same_depth
+//   c2s x y z | s2c r lon lat             Utilities conversions
 // an exception is answered by "EXC <what>"
 #include "world_builder/world.h"
 #include "world_builder/objects/distance_from_surface.h"
+#include "world_builder/utilities.h"
+#include "world_builder/coordinate_systems/interface.h"
 #include <iostream>
 #include <sstream>
 #include <cstdio>
@@ -45,6 +49,10 @@ int main(int argc, char **argv)
         else if (cmd == "dist") { double x,y,z,d; std::string n; is>>x>>y>>z>>d; std::getline(is, n); n.erase(0, n.find_first_not_of(' '));
                                   auto pd = w->distance_to_plane(std::array<double,3>{{x,y,z}}, d, n);
                                   out({pd.get_distance_from_surface(), pd.get_distance_along_surface()}); }
+        else if (cmd == "gc") { double r,lo1,la1,lo2,la2; is>>r>>lo1>>la1>>lo2>>la2;
+                                out({w->parameters.coordinate_system->distance_between_points_at_same_depth(Point<3>(r,lo1,la1,spherical), Point<3>(r,lo2,la2,spherical))}); }
+        else if (cmd == "c2s") { double x,y,z; is>>x>>y>>z; auto a = Utilities::cartesian_to_spherical_coordinates(Point<3>(x,y,z,cartesian)); out({a[0],a[1],a[2]}); }
+        else if (cmd == "s2c") { double r,lo,la; is>>r>>lo>>la; auto a = Utilities::spherical_to_cartesian_coordinates(std::array<double,3>{{r,lo,la}}); out({a[0],a[1],a[2]}); }
         else printf("EXC unknown command\n");
       } catch (std::exception &e) { std::string m(e.what()); for (char &c : m) if (c=='\n') c=' '; printf("EXC %s\n", m.substr(0,200).c_str()); }
       fflush(stdout);
